@@ -26,7 +26,7 @@ import Driver.Util
               u<id>  request number the object does not implement
               x<id>:<0|1>  MULTISTREAM_GET_{EN,DE}CODER_STATE(id, NULL|ptr)
               q<0|1> / a<0|1> / t<0|1>:<size>  projection demixing size / gain / matrix requests
-              E<frame_size>:<bytes>:<ret>:<obs,…>:<toc>:<payload>:<frames>:<sig>:<seed>   opus_encode + fields observed afterwards, packet, signal
+              E<frame_size>:<bytes>:<ret>:<obs,…>:<toc>:<payload>:<frames>:<sig>:<seed>:<fmt>   opus_encode{,24,_float} + fields observed afterwards, packet, signal
               D<frame_size>:<ret>:<obs,…>           opus_decode + fields observed afterwards
   After every op the answer is `<code>[=<value>]/<snapshot>`.
 -/
@@ -187,10 +187,10 @@ def parseEncObs (l : List Int) : Option EncObs :=
 def encEncodeOp (s : EncSt) (body : String) : Option (EncSt × String) :=
   -- (the trailing toc:payload:frames describe the packet on the wire; they are read by the S4 search only)
   match body.splitOn ":" with
-  | [fsz, bytes, ret, obs, _, _, _, _, _] => do
-    let fsz ← fsz.toInt?; let bytes ← bytes.toInt?; let ret ← ret.toInt?
+  | [fsz, bytes, ret, obs, _, _, _, _, _, fmt] => do
+    let fsz ← fsz.toInt?; let bytes ← bytes.toInt?; let ret ← ret.toInt?; let fmt ← fmt.toNat?
     let o ← (← parseIntList obs) |> parseEncObs
-    match encodeContract s fsz bytes ret o with
+    match encodeContract s fsz bytes ret o fmt with
     | some why => pure (encAdopt s o, s!"CONTRACT({why})")
     | none => pure (encAdopt s o, "enc")
   | _ => none
